@@ -110,6 +110,9 @@ def run(rep, tier, seed):
                 _cross_check(rep, case, res)
             if case["op"] == "numsweep" and variant == "dbg":
                 rep.bump("sweep_cases")
+    # valgrind memcheck replay of a stride of the sweep (the 43-byte buffer, CStr::from_ptr, decQuadToString)
+    nv = 8 if tier == "quick" else 160
+    runner.memcheck_replay(rep, cases[:: max(1, len(cases) // nv)][:nv])
     # distinct non-trivial: measured as numbers checked on dbg with non-zero coefficient (the sweep never generates zero)
     n_distinct = rep.extra.get("numbers_checked_in_driver", 0)
     rep.distinct_count = n_distinct  # the driver enumerates distinct (sign, coefficient, exponent) triples, all with non-zero coefficient
